@@ -163,12 +163,18 @@ func await[T any](ch <-chan T, match func(T) bool, recvFunc string) (T, outcome)
 	}
 }
 
-// awaitCond polls cond (cheap, monotonic) until it holds.
-func awaitCond(cond func() bool) outcome {
+// awaitCond polls cond (cheap, monotonic) until it holds; alive, when set, is
+// the logical reason to keep waiting (checked rarely).
+func awaitCond(cond func() bool, alive func() (bool, string)) outcome {
 	start := time.Now()
 	for i := 0; ; i++ {
 		if cond() {
 			return okOutcome("")
+		}
+		if alive != nil && i%512 == 511 && time.Since(start) > 100*time.Millisecond {
+			if ok, who := alive(); !ok && !cond() {
+				return outcome{"dead", who}
+			}
 		}
 		switch {
 		case i < 50:
